@@ -1338,7 +1338,8 @@ impl Display for CommandPrefixOrSuffixItem {
             Self::Word(word) => write!(f, "{word}"),
             Self::AssignmentWord(_assignment, word) => write!(f, "{word}"),
             Self::ProcessSubstitution(kind, subshell_command) => {
-                write!(f, "{kind}({subshell_command})")
+                // N.B. The subshell command prints its own parentheses.
+                write!(f, "{kind}{subshell_command}")
             }
         }
     }
